@@ -823,7 +823,16 @@ func (g *G) genSIE(id string) *History {
 		}
 		bg := rp
 		bg.DelayNs = sec / 2
-		h.Ops = append(h.Ops, Op{Op: "req", AtNs: at, Method: "GET", URL: url, Hdr: rh, Replies: []Reply{rp, bg}})
+		op := Op{Op: "req", AtNs: at, Method: "GET", URL: url, Hdr: rh, Replies: []Reply{rp, bg}}
+		if g.chance(0.12) {
+			// the origin call fails BECAUSE the caller's own deadline passes, or its Cancel channel is closed, while the
+			// origin is still silent: an origin call that errors, like any other (the stored response is what the caller
+			// is given inside the window — C13 does not except this cause)
+			op.Replies = []Reply{{Hang: true, BodyFail: -1}, bg}
+			op.Cancel = pick(g, "dl:2000000000", "dl:1000000000", "dl:3000000000")
+			delay = 3 * sec
+		}
+		h.Ops = append(h.Ops, op)
 		at += delay
 		if rp.Status == 304 {
 			break // freshened: the window moves; one history, one window
